@@ -468,7 +468,13 @@ def process_methods(plat):
     for name in sorted(dir(plat.Process)):
         if name.startswith("_") or name in skip:
             continue
-        if callable(getattr(plat.Process, name)):
+        attr = getattr(plat.Process, name)
+        # a public class attribute that is not callable (a decorator that
+        # returned None, say) is still a method the platform promises: calling
+        # it fails and is judged like any other outcome
+        if callable(attr) or (name in vars(plat.Process)
+                              and type(attr).__name__ not in ("member_descriptor", "getset_descriptor",
+                                                              "property")):
             out.append(name)
     return out
 
